@@ -868,10 +868,10 @@ func main() {
 		ID:          "C12",
 		Level:       "model_checking",
 		CaseTimeout: 30 * time.Minute,
-		Rule:        "programs = caller thread T0 (1-3 ops over {5 call behaviours, pipelined call on the latest answer, Release}), optional second caller T1 with its own client handle, a gatekeeper thread (gate order permutations; each gate opened, its call context cancelled, or left closed so that only Shutdown's cancellation can end the call), policies MaxConcurrentCalls x AnswerQueueSize; fixed epilogue (release remaining handles => server Shutdown, collect every answer). For each program all schedules of the real server/, answer.go, capability.go up to the preemption bound. Non-trivial = more than one schedule or outcome. states = sum over programs of distinct scheduling configurations; transitions = scheduling steps; traces = executions on the implementation.",
+		Rule:        "programs = caller thread T0 (1-3 ops over {5 call behaviours, pipelined call on the latest answer, Release}), optional second caller T1 with its own client handle, [family direct-shutdown: the *server.Server driven directly, 1-3 caller threads with one Send each over {return at once, ack and wait, wait un-acked}, Shutdown called at once or only when nothing else can run, MaxConcurrentCalls 0/1/2;] a gatekeeper thread (gate order permutations; each gate opened, its call context cancelled, or left closed so that only Shutdown's cancellation can end the call), policies MaxConcurrentCalls x AnswerQueueSize; fixed epilogue (release remaining handles => server Shutdown, collect every answer). For each program all schedules of the real server/, answer.go, capability.go up to the preemption bound. Non-trivial = more than one schedule or outcome. states = sum over programs of distinct scheduling configurations; transitions = scheduling steps; traces = executions on the implementation.",
 		Assumptions: []string{
 			"scheduling points at every sync operation are sufficient (data-race freedom checked separately by a free-running -race pass, which decides nothing)",
-			"the server is driven through capnp.Client, so Shutdown runs only after the last handle is released and no Send is in progress, as the Client contract guarantees",
+			"main families: the server is driven through capnp.Client, so Shutdown runs only after the last handle is released and no Send is in progress, as the Client contract guarantees; family direct-shutdown drives the Server's Send/Shutdown directly so that Shutdown overlaps Sends in progress (never Sends issued after Shutdown was called from the same thread)",
 		},
 		Families: func(tier string) []vlib.Family {
 			all4 := [][2]int{{1, 1}, {1, 2}, {2, 1}, {2, 2}}
@@ -881,11 +881,13 @@ func main() {
 					family("T0<=2,T1<=1,dev2", programs(2, 1, all4, true), vsched.Config{MaxPreempt: 2, MaxFree: 2, MaxTotal: 2, MaxDev: 0, MaxSteps: 3000}),
 					family("T0<=3,dev2", programs(3, 0, two, false), vsched.Config{MaxPreempt: 2, MaxFree: 2, MaxTotal: 2, MaxDev: 0, MaxSteps: 3000, MaxExecs: 30000}),
 					family("T0<=2,T1<=2,dev1", programs(2, 2, two, false), vsched.Config{MaxPreempt: 1, MaxFree: 1, MaxTotal: 1, MaxDev: 0, MaxSteps: 3000}),
+					directFamily("direct-shutdown<=3,dev2", dprogs(3), vsched.Config{MaxPreempt: 2, MaxFree: 2, MaxTotal: 2, MaxDev: 0, MaxSteps: 3000}),
 				}
 			}
 			return []vlib.Family{
 				family("T0<=2,T1<=1,dev1", programs(2, 1, two, false), vsched.Config{MaxPreempt: 1, MaxFree: 1, MaxTotal: 1, MaxDev: 0, MaxSteps: 3000}),
 				family("T0<=3,dev1", programs(3, 0, two, false), vsched.Config{MaxPreempt: 1, MaxFree: 1, MaxTotal: 1, MaxDev: 0, MaxSteps: 3000}),
+				directFamily("direct-shutdown<=2,dev2", dprogs(2), vsched.Config{MaxPreempt: 2, MaxFree: 2, MaxTotal: 2, MaxDev: 0, MaxSteps: 3000}),
 			}
 		},
 	})
